@@ -369,6 +369,12 @@ func c12StructuredDocs(quick bool) [][]byte {
 	for _, d := range UnicodeDocs() {
 		add(d)
 	}
+	for _, d := range HeadingShapeDocs() {
+		add(d)
+	}
+	for _, d := range SlotDocs() {
+		add(d)
+	}
 	// the same documents with CR LF line endings (model documents, tables, tab/space code mixtures, leak-prone documents)
 	for _, d := range ModelDocs() {
 		add(CRLF(d))
